@@ -149,7 +149,7 @@ var prop = &vt.Prop[Case]{
 	Property: property,
 	Kind:     "c03-program",
 	Gen: func(t *rapid.T) Case {
-		c := Case{Prog: wprog.Gen(wprog.Opts{AllowSparse: true, AllowBulk: true}).Draw(t, "prog")}
+		c := Case{Prog: wprog.Gen(wprog.Opts{AllowSparse: true, AllowBulk: true, IgnoreSparseFinding: true}).Draw(t, "prog")}
 		c.Prog.ScrubNames() // a name cannot contain NUL (ISO 32000 7.3.5): outside the domain
 		return c
 	},
